@@ -5,7 +5,7 @@ import os
 from .model import AnalysisError
 from .report import VERIF
 from .callgraph import closure
-from .rules import r1_resolve, r2_none, r3_ctor, r9_purity, r4_predicates, r5_arghandler, r6_dispatch, r7_binary, r8_accessors, r_list, r10_args, r11_symbolic, r16_tables, r15_closed, r14_interp
+from .rules import r1_resolve, r2_none, r3_ctor, r9_purity, r4_predicates, r5_arghandler, r6_dispatch, r7_binary, r8_accessors, r_list, r10_args, r11_symbolic, r16_tables, r15_closed, r14_interp, r18_shared
 
 _anch = None
 
@@ -256,6 +256,14 @@ def c_dev10(run):
 CHECKS['DEV10'] = c_dev10
 
 
+def c_dev10r(run):
+    r10_args.check_recursion_options(run, run.prog.analysed_functions())
+    run.explanation = 'dev R10r'
+
+
+CHECKS['DEV10R'] = c_dev10r
+
+
 def base_exports(run):
     prog = run.prog
     b = prog.modules['spatialmath.base']
@@ -284,6 +292,7 @@ def c15(run):
     for k in r10_args.EXTRACTORS:
         r10_args.check_extraction_units(run, prog.func(k))
     r10_args.check_order_tables(run)
+    r10_args.check_recursion_options(run, prog.analysed_functions())
     r3_ctor.run_r3(run)
     r2_none.run_r2(run, closure(fl, depth=0 if run.tier == 'quick' else 1, prog=prog))
     run.floor('R10a', 60)
@@ -323,6 +332,9 @@ def c16(run):
     r11_symbolic.check_getvector_dtype(run)
     r11_symbolic.check_allocations(run)
     ms = r11_symbolic.marked(prog)
+    r18_shared.check_shared_structure(run)
+    r16_tables.check_routes(run, [('super_pose:SMPose.simplify', 'every element simplified whole', ['self.__class__([vectorize(simplify)(x) for x in self.data], check=False)', 'self.__class__([vf(x) for x in self.data], check=False)'], 'return')], rule='R18')
+    run.floor('R18', 30)
     r1_resolve.run_r1(run, closure(ms, depth=1 if run.tier == 'quick' else None, prog=prog))
     run.floor('R11', 40)
     run.floor('R11d', 2)
@@ -337,7 +349,8 @@ def c16(run):
                        'check=False when the class validity predicate is numeric. R11a: arrays that receive '
                        'argument-derived values are allocated with the argument dtype (or only in the numeric branch). '
                        'R11d: the vector normaliser selects its conversion dtype under a symbol test in each container '
-                       'branch. Value agreement after substitution needs execution and is not decided.')
+                       'branch. R18: methods shared by SO(n) and SE(n) receivers (simplify among them) treat the element matrices uniformly -- no '
+                       'size-relative slice cuts the last row/column off without an isSE test. Value agreement after substitution needs execution and is not decided.')
     run.trust(*STATIC_TRUST)
 
 
@@ -438,6 +451,7 @@ def c02(run):
     r16_tables.check_vector_fn(run, 'base/quaternions:qqmul', 'qqmul',
                                ['P0[0]*P1[0] - dot(P0[1:4], P1[1:4])', 'P0[0]*P1[1:4] + P1[0]*P0[1:4] + cross(P0[1:4], P1[1:4])'])
     r16_tables._qpow(run)
+    r16_tables.check_trlog_dependence(run)
     r7_binary.run_r7(run, helpers=True, dunders=False)
     _scope_rules(run, 'C02')
     run.floor('R16', 4)
@@ -446,7 +460,8 @@ def c02(run):
                        'composition with right.inv() / conj(y); ** folds with matrix_power / the qpow fold (|n| Hamilton products '
                        'from the identity, conjugate for negative n); prod folds left to right from the identity; the structured '
                        'inverses trinv/trinv2/SE2.inv are [[R^T, -R^T t],[0,1]], SO(n).inv is the transpose, unit-quaternion inverse '
-                       'is the conjugate, twist inverse is negation and twist composition is log(exp(x) exp(y)); conj and qqmul '
+                       'is the conjugate, twist inverse is negation and twist composition is log(exp(x) exp(y)) with a logarithm whose axis reads '
+                       'off-diagonal entries of R on every path (R17); conj and qqmul '
                        'equal their term tables including the cross-product operand order; the broadcasting helpers use both '
                        'operands in order (R7).' + NUMERIC_NOTE)
     run.trust(*STATIC_TRUST)
@@ -483,6 +498,7 @@ def c05(run):
         r8_accessors.check_accessor(run, prog.func(k))
     r16_tables.check_expr_fn(run, 'base/transforms2d:xyt2tr', 'xyt2tr is covered by the slot table', 'T') if False else None
     r16_tables._trot2(run)
+    r16_tables.check_double_cover(run)
     _scope_rules(run, 'C05')
     run.floor('R12', 8)
     run.floor('R16', 10)
@@ -492,7 +508,8 @@ def c05(run):
                        'and every constructor converts through getunit exactly once (unit typestate); the singular branch of tr2eul '
                        'is the general formula specialised at phi = 0 and flip selects the second solution; class accessors thread '
                        'unit/order/flip identically in the single- and multi-valued branches; xyt2tr/tr2xyt use the same slots; '
-                       'tr2angvec returns (norm, unit vector) of the rotation vector. The atan2/asin formulas of tr2rpy and behaviour '
+                       'tr2angvec returns (norm, unit vector) of the rotation vector; the angle accessors of UnitQuaternion are invariant '
+                       'under q -> -q (double cover, parity of the normal form). The atan2/asin formulas of tr2rpy and behaviour '
                        'within 1e-12 of the singularities are not decided.')
     run.trust(*STATIC_TRUST)
 
@@ -532,6 +549,8 @@ def c11(run):
 def c12(run):
     r16_tables.tables_c12(run)
     r16_tables.check_routes(run, r16_tables.ROUTES_C12)
+    r16_tables.check_sign_dependence(run, 'quaternion:Quaternion.log', 's', why='quaternions (s, v) and (-s, v) are different but get the same '
+                                     'logarithm, so exp(log(q)) cannot return q when the scalar part is negative (angle beyond pi/2)')
     _scope_rules(run, 'C12')
     run.floor('R16', 18)
     run.floor('R15', 10)
@@ -541,7 +560,8 @@ def c12(run):
                        'skew(qv)) w]; q2r equals the monomial table; qpow is a correct fold (linear, or square-and-multiply with the '
                        'squaring step) from the identity with conjugation for negative exponents; the dual-quaternion product is '
                        '(l.r r.r, l.r r.d + l.d r.r) with non-commutative operand order, its 8x8 matrix is [[R,0],[D,R]], conj/vec/'
-                       'norm have their forms; the class operators route to these functions. The universally quantified identities '
+                       'norm have their forms; the class operators route to these functions; the quaternion logarithm depends on the sign '
+                       'of the scalar part (R17: a logarithm computed from |v| and |q| alone cannot be inverted by exp). The universally quantified identities '
                        '(associativity, norm multiplicativity, exp/log) and vvmul are not decided.')
     run.trust(*STATIC_TRUST)
 
@@ -605,6 +625,8 @@ def c18(run):
 
 def c19(run):
     r16_tables.tables_c19(run)
+    r16_tables.check_column_branch_agreement(run, 'geom3d:Plucker.contains', 'x')
+    r10_args.check_recursion_options(run, [f for f in run.prog.analysed_functions() if f.module.short == 'geom3d'])
     _scope_rules(run, 'C19')
     run.floor('R16', 20)
     run.explanation = ('Pluecker lines, convention tables: one moment convention v = w x p in PQ, PointDir, Planes and Twist3.line; '
@@ -612,7 +634,8 @@ def c19(run):
                        'one plane convention n.x + d = 0: the writer Plane.PN and the readers Plane.contains (checked by composing '
                        'the two expressions: the residual at the defining point vanishes identically), Planes and intersect_plane; '
                        'SE3 premultiplication by [[R, skew(-t) R],[0, R]]; equality compares unit 6-vectors; the parallelism test is '
-                       'invariant under reversing a direction (parity analysis of the normal form). Metric statements (distances, '
+                       'invariant under reversing a direction (parity analysis of the normal form); Plucker.contains applies the same '
+                       'predicate, with the caller\'s tolerance, to a single point and to each column of a 3xN array. Metric statements (distances, '
                        'the line parameter of intersect_plane) are not decided.')
     run.trust(*STATIC_TRUST)
 
